@@ -25,7 +25,7 @@ pub struct NameVolume {
 impl NameVolume {
     pub fn generate(rng: &mut Rng, big: bool) -> NameVolume {
         let threads = rng.range_usize(2, 5);
-        const PARTS: [&str; 6] = ["", "_", "a", "tmp_0_0", "7", "x_1"];
+        const PARTS: [&str; 9] = ["", "_", "a", "tmp_0_0", "7", "x_1", "index.gbz", "v1.2", "."];
         let same = rng.chance(1, 2);
         let first = rng.pick(&PARTS).to_string();
         let mut calls = Vec::new();
